@@ -61,13 +61,18 @@ func lastStepExtends(parent, child lang.Address) bool {
 }
 
 // checkNested verifies the structural rules of nested targets below t.
-func checkNested(r *Result, t reference.Target, fname string, strictInside bool, depth int) {
+func checkNested(r *Result, t reference.Target, fname string, strictInside bool, depth int, selfAddr func(s, e int) bool) {
 	type idx struct {
 		n     int64
 		start int
 	}
 	var idxs []idx
 	for _, n := range t.NestedTargets {
+		if n.RangePtr != nil && n.Type == cty.NilType && n.DefRangePtr == nil && selfAddr(n.RangePtr.Start.Byte, n.RangePtr.End.Byte) {
+			// a self-addressing reference (Reference constraint with Address) written inside an
+			// inferred body: the written traversal is the target, its address is its own
+			continue
+		}
 		if len(t.Addr) > 0 && !lastStepExtends(t.Addr, n.Addr) {
 			r.Fail("nested-address", "nested target %q does not extend its parent %q by exactly one step", n.Addr.String(), t.Addr.String())
 		}
@@ -81,13 +86,14 @@ func checkNested(r *Result, t reference.Target, fname string, strictInside bool,
 			}
 		}
 		if len(n.Addr) > 0 {
-			if is, ok := n.Addr[len(n.Addr)-1].(lang.IndexStep); ok && is.Key.Type() == cty.Number && n.RangePtr != nil {
+			// (elements the type declares but the value does not write carry an empty range)
+			if is, ok := n.Addr[len(n.Addr)-1].(lang.IndexStep); ok && is.Key.Type() == cty.Number && n.RangePtr != nil && n.RangePtr.Start.Byte != n.RangePtr.End.Byte {
 				i, _ := is.Key.AsBigFloat().Int64()
 				idxs = append(idxs, idx{i, n.RangePtr.Start.Byte})
 			}
 		}
 		if depth < 6 {
-			checkNested(r, n, fname, strictInside, depth+1)
+			checkNested(r, n, fname, strictInside, depth+1, selfAddr)
 		}
 	}
 	// list index = source order
@@ -284,7 +290,14 @@ func checkC09(c C09Case) Result {
 				if len(t.NestedTargets) > 0 {
 					r.Class("nested-targets")
 				}
-				checkNested(&r, t, f.Name, strict, 0)
+				checkNested(&r, t, f.Name, strict, 0, func(s, e int) bool {
+					for _, src := range tm.Sources {
+						if src.Kind == "selfaddr" && s >= src.Region.Start && e <= src.Region.End {
+							return true
+						}
+					}
+					return false
+				})
 				checkExtent(t, 0, false)
 			}
 			if len(r.Failures) > 5 {
